@@ -412,7 +412,7 @@ class Spec:
             "tasks runnable at once and one pre-emption; distinct = distinct sync-order signature among those runs")
 
     def runs(self, tier):
-        return 10000 if tier == "quick" else 300000
+        return 8000 if tier == "quick" else 300000
 
     def wall_budget(self, tier):
         return 150 if tier == "quick" else 3000
